@@ -110,6 +110,8 @@ pub trait ValueView {
     spec fn scalar_of(&self) -> Option<ScalarCow>;
     spec fn kstr_of(&self) -> KStringCow;
     spec fn array_of(&self) -> Option<Seq<VId>>;
+    spec fn nil_of(&self) -> bool;
+    fn is_nil(&self) -> (r: bool) ensures r == self.nil_of();
     fn as_scalar(&self) -> (r: Option<ScalarCow>) ensures r == self.scalar_of();
     fn to_kstr(&self) -> (r: KStringCow) ensures r == self.kstr_of();
     fn to_value(&self) -> (r: Value) ensures r.vid() == self.vid_of();
@@ -128,6 +130,9 @@ impl ValueView for Value {
     uninterp spec fn scalar_of(&self) -> Option<ScalarCow>;
     uninterp spec fn kstr_of(&self) -> KStringCow;
     open spec fn array_of(&self) -> Option<Seq<VId>> { self.arr() }
+    uninterp spec fn nil_of(&self) -> bool;
+    #[verifier::external_body]
+    fn is_nil(&self) -> (r: bool) { unimplemented!() }
     #[verifier::external_body]
     fn as_scalar(&self) -> (r: Option<ScalarCow>) { unimplemented!() }
     #[verifier::external_body]
